@@ -83,6 +83,7 @@ structure MonState where
   retainedHist : List (String × Nat × Option Pub) := []   -- (topic, time, value) most recent last
   liveCount : Nat := 0
   spun : Bool := false
+  advClients : List String := []        -- client ids of deliberately misbehaving clients (C14): nothing is promised to them
   heads : List (Nat × Nat) := []         -- (filter idx, abs offset of the oldest retained entry) after each eviction
 
 def MonState.init (c : Config) : MonState := { cfg := some c }
@@ -253,6 +254,8 @@ def observeForward (m : MonState) (l : Nat) (f : Pub) : MonState × Fail :=
 /-- one ack notification observed on link `l` (C06: exactly the committed acks, in order) -/
 def observeAck (m : MonState) (l : Nat) (a : Ack) : MonState × Fail :=
   let lm := getL m l
+  if m.advClients.contains lm.clientId && lm.clientId != "" then
+    (setL m l { lm with expectAcks := lm.expectAcks.drop 1 }, none) else
   match a with
   | .connack id sp =>
     -- C08 / C19: a CONNACK only for a registered session, with the right session-present flag
@@ -324,7 +327,8 @@ def applyGhost (m : MonState) (g : Ghost) : MonState × Fail :=
       else match m.sessions.find? (·.clientId == clientId) with
         | some sv => (sv.subs, m.sessions.filter (·.clientId != clientId), sv.fuzzy)
         | none => ([], m.sessions, false)
-    let lm := { lm with subs := subs, configs := [subs.map (·.start)], ambiguous := fuzzy }
+    let adv := m.advClients.contains clientId
+    let lm := { lm with subs := subs, configs := [subs.map (·.start)], ambiguous := fuzzy || adv }
     let m := { m with sessions := sessions, liveCount := m.liveCount + 1 }
     let m := touchGroups m clientId
     let maxc := match m.cfg with | some c => c.maxConnections | none => 0
@@ -434,6 +438,13 @@ def applyGhosts (m : MonState) : List Ghost → Fail → MonState × Fail
     let (m, f') := applyGhost m g
     applyGhosts m rest (if f.isSome then f else f')
 
+/-- `note adv <L>`: the client of link `l` misbehaves on purpose from now on -/
+def markAdversary (m : MonState) (l : Nat) : MonState :=
+  let lm := getL m l
+  if lm.clientId == "" then m else
+  setL { m with advClients := if m.advClients.contains lm.clientId then m.advClients else m.advClients ++ [lm.clientId] } l
+    { lm with ambiguous := true }
+
 /-- which tags count as a violation of which property -/
 def relevant (prop tag : String) : Bool :=
   let pre (p : String) := tag.startsWith p
@@ -467,9 +478,11 @@ def observe (prop : String) (m : MonState) (op : Op) (o : Obs) (ghosts : List Gh
       match op, out with
       | .drain l, .drained _ ns => observeNotifs m l ns none
       | .push l p, _ => (linkPushes m l p, none)
-      | .connect spec, _ =>
-        -- a new link: fresh monitor state for it
-        (setL m spec.link { clientId := spec.clientId, clean := spec.clean }, none)
+      | .connect _, _ =>
+        -- the link's monitor state is replaced by the `registered` / `notRegistered` ghost event,
+        -- after a possible `removed` event of the connection it takes over (which may be the
+        -- previous connection of the very same link number)
+        (m, none)
       | _, _ => (m, none)
     -- C14 (last sentence): a signal sent on behalf of a connection that has ended (link `behalf`)
     -- must not act on the connection that now owns the slot id
@@ -488,7 +501,7 @@ def observe (prop : String) (m : MonState) (op : Op) (o : Obs) (ghosts : List Gh
 /-- checks at a point where the harness drove the router to idle and every client acknowledged -/
 def atIdle (prop : String) (m : MonState) : Fail :=
   let fails : List (String × String) := (m.links.zipIdx).filterMap fun (lm, l) =>
-    if !lm.live then none else
+    if !lm.live || m.advClients.contains lm.clientId then none else
     -- C06: nothing owed
     if !lm.expectAcks.isEmpty then
       some ((match lm.expectAcks.head? with | some (.connack _ _) => "c03-not-serving" | _ => "c06-ack-missing"),
